@@ -5,6 +5,7 @@ go 1.24.0
 require (
 	github.com/ethereum/go-ethereum v0.0.0
 	github.com/golang/snappy v1.0.1-0.20260716114414-9ae09f520e93
+	github.com/google/uuid v1.6.0
 	github.com/holiman/uint256 v1.3.2
 	golang.org/x/crypto v0.48.0
 )
@@ -41,7 +42,6 @@ require (
 	github.com/gofrs/flock v0.12.1 // indirect
 	github.com/gogo/protobuf v1.3.2 // indirect
 	github.com/golang/protobuf v1.5.4 // indirect
-	github.com/google/uuid v1.6.0 // indirect
 	github.com/gorilla/websocket v1.4.2 // indirect
 	github.com/holiman/bloomfilter/v2 v2.0.3 // indirect
 	github.com/kilic/bls12-381 v0.1.0 // indirect
